@@ -679,10 +679,12 @@ def oracle_c08(an):
                         s.in_done = True
                         s.dead, s.why = True, 'response received'
                 elif t == 'ERROR':
+                    # the statement lists own ERROR, own CANCEL and both-directions-completed as
+                    # the points after which nothing may be emitted; a peer's ERROR ends the
+                    # peer's direction (what the peer's CANCEL obliges us to is C09's subject)
                     s.in_done = True
-                    s.dead, s.why = True, 'peer sent ERROR'
-                elif t == 'CANCEL':
-                    s.dead, s.why = True, 'peer sent CANCEL'
+                    if s.out_done or (s.role == 'requester' and s.kind in ('rr', 'stream')):
+                        s.dead, s.why = True, 'both directions completed'
             elif k == 'enq' and ev['ep'] == ep:
                 f = ev['f']
                 t, sid = f['type'], f['sid']
@@ -770,11 +772,11 @@ def oracle_c10(an):
         return out
     for ev in an.by_kind['final']:
         if ev['streams']:
-            kinds = []
-            for sid in ev['streams']:
-                kinds.append(_describe_sid(an, ev['ep'], sid))
+            kinds = [_describe_sid(an, ev['ep'], sid) for sid in ev['streams']]
+            half_close = all(k.startswith('channel/') and ('cancelled' in k or '_error' in k or 'handler_' in k)
+                             for k in kinds)
             V('stream_leaked', '%s still holds stream(s) %s at quiescence (%s)' % (ev['ep'], ev['streams'], kinds),
-              ev['seq'], ep=ev['ep'], what=sorted(set(kinds)))
+              ev['seq'], ep=ev['ep'], what=sorted(set(kinds)), only_channel_ended_by_cancel_or_error=half_close)
         if ev['frags']:
             V('fragments_leaked', '%s still holds partial frames for %s' % (ev['ep'], ev['frags']), ev['seq'], ep=ev['ep'])
     return out
@@ -944,6 +946,264 @@ def oracle_c13(an):
     return out
 
 
+# ------------------------------------------------------------------------------------------
+# C07: every interaction terminates at most once at the API
+# ------------------------------------------------------------------------------------------
+
+def oracle_c07(an):
+    out = []
+    V = lambda cls, msg, seq=None, **f: out.append(Violation('C07', 'C07.' + cls, msg, seq, **f))
+    subs = defaultdict(list)
+    for ev in an.by_kind['sub'] + an.by_kind.get('post_sub', []):
+        subs[(ev['iid'], ev['role'], ev['ep'])].append(ev)
+    for (iid, role, ep), evs in subs.items():
+        kind = an.ia.get(iid, {}).get('kind')
+        facts = dict(kind=kind, role=role, at_close=False)
+        state = 'new'
+        for e in evs:
+            cb = e['cb']
+            facts['at_close'] = e['seq'] > an.settled_seq
+            if state == 'new':
+                if cb != 'on_subscribe':
+                    V('signal_before_subscribe', 'interaction %d %s: %s before on_subscribe' % (iid, role, cb), e['seq'], **facts)
+                state = 'open'
+                if cb == 'on_subscribe':
+                    continue
+            if state == 'done':
+                V('signal_after_terminal', 'interaction %d %s subscriber: %s after the terminal signal %s'
+                  % (iid, role, cb, terminal), e['seq'], first=terminal, second=cb, **facts)
+                break
+            if cb == 'on_subscribe':
+                V('subscribed_twice', 'interaction %d %s: on_subscribe twice' % (iid, role), e['seq'], **facts)
+            elif cb in ('on_complete', 'on_error') or (cb == 'on_next' and e.get('complete')):
+                state = 'done'
+                terminal = cb if cb != 'on_next' else 'on_next[complete]'
+    # request-response awaitables: resolved exactly once by the end of the run
+    for iid, ia in an.ia.items():
+        if ia['kind'] != 'rr' or not an.requested(iid) or an.request_failed(iid):
+            continue
+        futs = [e for e in an.by_kind['fut'] + an.by_kind.get('post_fut', []) if e['iid'] == iid and e['role'] == 'requester']
+        if len(futs) > 1:
+            V('future_resolved_twice', 'request-response %d resolved %d times' % (iid, len(futs)), futs[1]['seq'], kind='rr')
+        if not futs and an.world.plan.get('end_close', True) and an.world.incomplete is None:
+            V('future_never_resolved', 'request-response %d still pending after the connection was closed' % iid, None, kind='rr')
+    for ev in an.by_kind['log'] + an.by_kind.get('post_log', []) + an.by_kind.get('loopexc', []) + an.by_kind.get('post_loopexc', []):
+        txt = '%s %s %s' % (ev.get('msg'), ev.get('exc'), ev.get('exception'))
+        if 'InvalidStateError' in txt:
+            V('invalid_state', 'a future was resolved twice inside the library: %s' % txt[:160], ev['seq'], kind='rr')
+            break
+    return out
+
+
+# ------------------------------------------------------------------------------------------
+# C09: cancellation stops the stream at both ends
+# ------------------------------------------------------------------------------------------
+
+def oracle_c09(an):
+    out = []
+    V = lambda cls, msg, seq=None, **f: out.append(Violation('C09', 'C09.' + cls, msg, seq, **f))
+    for iid, ia in an.ia.items():
+        kind = ia['kind']
+        if kind not in ('rr', 'stream', 'channel') or iid not in an.sid_of:
+            continue
+        req_ep, sid = an.sid_of[iid]
+        lo, hi = _life_span(an, req_ep, sid, iid)
+        for role in ('requester', 'responder'):
+            cseq = an.cancel_seq(iid, role)
+            if cseq is None:
+                continue
+            ep = req_ep if role == 'requester' else other(req_ep)
+            peer = other(ep)
+            src = _src_for(an, iid, 'responder' if role == 'requester' else 'requester')
+            facts = dict(kind=kind, canceller=role, src=src, lease=bool(an.plan.get(ep, {}).get('honor_lease')))
+            cancels = [e for e in an.by_kind['enq'] if e['ep'] == ep and e['f']['sid'] == sid and e['f']['type'] == 'CANCEL'
+                       and lo <= e['seq'] < hi]
+            # terminal frame of the stream pulled by the canceller between the action and the first
+            # opportunity to queue the CANCEL (request-response: next loop iteration) -> 0 or 1
+            act_it = next(e['it'] for e in an.acts[iid] if e['seq'] == cseq)
+            raced = any(e for e in an.by_kind['rx'] if e['ep'] == ep and e['f']['sid'] == sid and e['seq'] > cseq
+                        and e['it'] <= act_it + 1 and e['f']['type'] in ('PAYLOAD', 'ERROR'))
+            if len(cancels) > 1:
+                V('cancel_repeated', 'interaction %d: %d CANCEL frames for one cancel()' % (iid, len(cancels)),
+                  cancels[1]['seq'], **facts)
+            elif not cancels and not (kind == 'rr' and raced):
+                V('cancel_not_sent', 'interaction %d: cancel() produced no CANCEL frame' % iid, cseq, **facts)
+            # silence at the canceller afterwards
+            for e in an.subs.get((iid, role), []):
+                if e['seq'] > cseq and e['ep'] == ep:
+                    V('signal_after_cancel', 'interaction %d: %s delivered to the canceller after cancel()' % (iid, e['cb']),
+                      e['seq'], cb=e['cb'], **facts)
+                    break
+            if kind == 'rr':
+                for e in an.futs.get((iid, 'requester'), []):
+                    if e['state'] != 'cancelled':
+                        V('signal_after_cancel', 'request-response %d resolved (%s) after cancel()' % (iid, e['state']),
+                          e['seq'], cb=e['state'], **facts)
+            if role != 'requester' or not cancels:
+                continue
+            # peer side: production stops
+            crx = next((e for e in an.by_kind['rx'] if e['ep'] == peer and e['f']['sid'] == sid and e['f']['type'] == 'CANCEL'
+                        and e['seq'] > cancels[0]['seq']), None)
+            if crx is None:
+                if an.fault_free and an.world.incomplete is None:
+                    V('cancel_not_received', 'interaction %d: CANCEL never reached the peer' % iid, cancels[0]['seq'], **facts)
+                continue
+            later = [e for e in an.by_kind['enq'] if e['ep'] == peer and e['f']['sid'] == sid and e['seq'] > crx['seq']
+                     and e['seq'] < hi and e['f']['type'] == 'PAYLOAD' and is_content(e['f'])]
+            resolved_before = [e for e in an.pubs.get((iid, 'responder'), []) if e.get('src') == 'future'
+                               and e['cb'] in ('emit', 'resolve_error') and e['seq'] < crx['seq']]
+            if kind == 'rr' and resolved_before:
+                later = []  # the response existed before CANCEL arrived; sending it late is harmless
+            if later:
+                V('production_continued', 'interaction %d: peer queued %d more payload(s) after it received CANCEL'
+                  % (iid, len(later)), later[0]['seq'], **facts)
+            # was the peer's production already finished when CANCEL arrived?
+            handler_seen = [e for e in an.hnds.get(iid, []) if e['seq'] < crx['seq']]
+            if kind == 'rr':
+                pf = an.futs.get((iid, 'responder'), [])
+                if handler_seen and ia.get('resp', {}).get('mode') not in ('raise',):
+                    if not resolved_before:
+                        if not any(e['state'] == 'cancelled' for e in pf):
+                            # the handler coroutine may still be running (hdelay): then there is no future yet
+                            returned = _handler_returned_before(an, iid, crx['seq'])
+                            if returned:
+                                V('producer_not_cancelled', 'request-response %d: handler future not cancelled by CANCEL' % iid,
+                                  crx['seq'], **facts)
+            else:
+                prod = an.pubs.get((iid, 'responder'), [])
+                subscribed = [e for e in prod if e['cb'] == 'subscribe' and e['seq'] < crx['seq']]
+                finished = [e for e in prod if e['cb'] in ('complete', 'error', 'on_complete', 'exhausted', 'error_signal')
+                            and e['seq'] < crx['seq']]
+                flagged_last = _emitted_all_flagged(an, iid, prod, crx['seq'])
+                if subscribed and not finished and not flagged_last:
+                    if not any(e['cb'] in ('cancel', 'on_cancel') and e['seq'] > crx['seq'] for e in prod):
+                        V('producer_not_cancelled', 'interaction %d: responder publisher (%s) not cancelled by CANCEL'
+                          % (iid, src), crx['seq'], **facts)
+    return out
+
+
+def _handler_returned_before(an, iid, seq):
+    """True if the responder's handler coroutine had returned its future before `seq` (the stream
+    was registered): approximated by 'the handler has no scripted suspension'."""
+    ia = an.ia[iid]
+    return not ia.get('resp', {}).get('hdelay')
+
+
+def _emitted_all_flagged(an, iid, prod, seq):
+    sc = an.ia[iid].get('resp') or {}
+    if sc.get('end') != 'flag':
+        return False
+    emits = [e for e in prod if e['cb'] == 'emit' and e['seq'] < seq]
+    return len(emits) >= sc.get('count', 0) > 0
+
+
+# ------------------------------------------------------------------------------------------
+# C11: connection loss or close fails everything pending, exactly once
+# ------------------------------------------------------------------------------------------
+
+def oracle_c11(an):
+    out = []
+    V = lambda cls, msg, seq=None, **f: out.append(Violation('C11', 'C11.' + cls, msg, seq, **f))
+    faults = [e for e in an.by_kind.get('fault', []) if e['what'] in ('cut', 'close', 'reset', 'eof', 'ws_error')]
+    if not faults or an.world.incomplete:
+        return out
+    f0 = faults[0]
+    fseq = f0['seq']
+    cause = f0['what'] + ('_' + f0['mode'] if f0.get('mode') else '')
+    framing = an.plan.get('framing', 'tcp')
+    allsub = defaultdict(list)
+    for ev in an.by_kind['sub'] + an.by_kind.get('post_sub', []):
+        allsub[(ev['iid'], ev['role'])].append(ev)
+    allfut = defaultdict(list)
+    for ev in an.by_kind['fut'] + an.by_kind.get('post_fut', []):
+        allfut[(ev['iid'], ev['role'])].append(ev)
+    allpub = defaultdict(list)
+    for ev in an.by_kind['pub'] + an.by_kind.get('post_pub', []):
+        allpub[(ev['iid'], ev['role'])].append(ev)
+    settled = an.settled_seq
+    for iid, ia in an.ia.items():
+        kind = ia['kind']
+        req = next((e for e in an.acts.get(iid, []) if e['what'] == 'request'), None)
+        if req is None or req['seq'] > fseq or an.request_failed(iid):
+            continue  # started after the loss: outside the statement ("pending at that moment")
+        facts = dict(kind=kind, cause=cause, framing=framing, by=an.requester(iid))
+        cancelled = an.cancel_seq(iid) is not None
+        # (1) requester side: nothing left hanging after the settle window
+        if kind == 'rr':
+            futs = [e for e in allfut.get((iid, 'requester'), []) if e['seq'] < settled]
+            if not futs:
+                V('request_left_hanging', 'request-response %d still pending %.1fs after the connection was lost (%s)'
+                  % (iid, an.plan.get('settle', 0), cause), None, **facts)
+        elif kind in ('stream', 'channel') and not cancelled:
+            evs = [e for e in allsub.get((iid, 'requester'), []) if e['seq'] < settled]
+            term = [e for e in evs if e['cb'] in ('on_complete', 'on_error') or (e['cb'] == 'on_next' and e.get('complete'))]
+            if evs and not term:
+                V('subscriber_left_hanging', '%s %d: requester subscriber got no terminal signal after the loss (%s)'
+                  % (kind, iid, cause), None, **facts)
+        # (2) responder side: whoever was producing has been cancelled
+        if kind == 'rr':
+            pf = allfut.get((iid, 'responder'), [])
+            handler = [e for e in an.hnds.get(iid, []) if e['seq'] < fseq]
+            resolved = [e for e in allpub.get((iid, 'responder'), []) if e.get('src') == 'future']
+            mode = ia.get('resp', {}).get('mode', 'now')
+            if handler and mode in ('never', 'delay', 'hops') and not ia.get('resp', {}).get('hdelay'):
+                done_before = [e for e in resolved if e['seq'] < fseq]
+                if not done_before and not [e for e in pf if e['seq'] < settled]:
+                    V('producer_not_cancelled', 'request-response %d: handler future neither resolved nor cancelled after the loss (%s)'
+                      % (iid, cause), None, role='responder', **facts)
+        elif kind in ('stream', 'channel'):
+            for role, script in (('responder', ia.get('resp')), ('requester', ia.get('pub'))):
+                if not script or script.get('src') is None:
+                    continue
+                prod = allpub.get((iid, role), [])
+                subscribed = [e for e in prod if e['cb'] == 'subscribe' and e['seq'] < fseq]
+                if not subscribed:
+                    continue
+                finished = [e for e in prod if e['cb'] in ('complete', 'error', 'on_complete', 'exhausted', 'error_signal', 'cancel',
+                                                           'on_cancel') and e['seq'] < fseq]
+                if finished or _emitted_all_flagged_role(an, iid, role, prod, fseq):
+                    continue
+                after = [e for e in prod if e['cb'] in ('cancel', 'on_cancel', 'complete', 'error', 'on_complete', 'exhausted',
+                                                        'error_signal') and fseq < e['seq'] < settled]
+                if not after:
+                    V('producer_not_cancelled', '%s %d: %s publisher (%s) still subscribed and not cancelled after the loss (%s)'
+                      % (kind, iid, role, script.get('src'), cause), None, role=role, src=script.get('src'), **facts)
+    # (3) close notification exactly once per endpoint
+    for ep in ('client', 'server'):
+        closes = [e for e in an.by_kind['hnd'] + an.by_kind.get('post_hnd', []) if e['ep'] == ep and e['method'] == 'on_close']
+        observed = [e for e in closes if e['seq'] < settled]
+        facts = dict(ep=ep, cause=cause, framing=framing)
+        if not observed:
+            V('close_not_notified', '%s: on_close not delivered after the connection was lost (%s)' % (ep, cause), None, **facts)
+        if len(closes) > 1:
+            V('close_notified_twice', '%s: on_close delivered %d times' % (ep, len(closes)), closes[1]['seq'],
+              second_at_final_close=closes[1]['seq'] > settled, **facts)
+        # (4) silence after the close completed
+        if observed:
+            c = observed[0]
+            late = [e for e in an.by_kind['enq'] + an.by_kind['tx'] if e['ep'] == ep and e['seq'] > c['seq']
+                    and e['t'] > c['t'] + 0.002 and e['seq'] < settled]
+            if late:
+                V('sends_after_close', '%s queued/wrote %d frame(s) (first: %s) after its close notification'
+                  % (ep, len(late), late[0]['f']['type']), late[0]['seq'], type=late[0]['f']['type'], **facts)
+        # (5) tasks finished
+        fin = [e for e in an.by_kind['final'] if e['ep'] == ep]
+        if fin and observed:
+            pend = [k for k, v in fin[0]['tasks'].items() if v == 'pending']
+            if pend:
+                V('tasks_alive', '%s: %s still running after the connection was lost' % (ep, pend), fin[0]['seq'],
+                  tasks=','.join(pend), **facts)
+    return out
+
+
+def _emitted_all_flagged_role(an, iid, role, prod, seq):
+    sc = (an.ia[iid].get('resp') if role == 'responder' else an.ia[iid].get('pub')) or {}
+    if sc.get('end') != 'flag':
+        return False
+    emits = [e for e in prod if e['cb'] == 'emit' and e['seq'] < seq]
+    return len(emits) >= sc.get('count', 0) > 0
+
+
 # registry ------------------------------------------------------------------------------
 
 ORACLES = {
@@ -954,4 +1214,7 @@ ORACLES = {
     'C08': oracle_c08,
     'C10': oracle_c10,
     'C13': oracle_c13,
+    'C07': oracle_c07,
+    'C09': oracle_c09,
+    'C11': oracle_c11,
 }
